@@ -35,6 +35,14 @@ ASSUMPTIONS = [
     "fewer than 119 ResponsePending frames per request (MAX_N_PENDING, C04's subject); client timing as in UDSClient: timeout "
     "2 s, retry_wait 0.2 s * 2^i, pending loop gives up after 40 * 0.5 s, pings every 0.5 s with 0.5 s timeout; the scanner's "
     "--sleep is 0",
+    "slow session changes: a positive reply announced with ResponsePending arrives less than 20 s (PENDING_GIVEUP_MS, the 40 reads of "
+    "0.5 s of the client's pending loop) after the last pending frame: transparent (scan_slow_pending_transparent; generated gaps "
+    "0.3 / 3.9 / 5.3 / 12.2 / 19.1 s of virtual time on graph and security-locked ECUs, session changes only); from 20 s on the "
+    "transmission counts as unanswered (slow_pending_lost_at_giveup; the late reply that then meets the next request is not "
+    "modelled and not generated); gaps on S3-timer ECUs are not generated (the model's idle time does not count them)",
+    "the content of a positive DiagnosticSessionControl reply beyond `50 <sub-function>` (the sessionParameterRecord, generated with "
+    "0 / 2 / 4 / 5 / 6 bytes per ECU or per session) is not part of the model: Ans.pos has no content, the scanner must not "
+    "depend on it",
     "completeness is claimed for runs that do not exit with status 1; every ECU whose sessions can all re-enter the "
     "default session (ISO 14229-1: `10 01` is mandatory) is proved to be such a run",
     "OEM hooks are represented by the list of 2-byte requests they send (send_raw through request_unsafe, reply ignored, an "
@@ -1498,7 +1506,12 @@ MANIFEST = {
                    "the exact wire trace; every graph case is also run through the stateful model (twin check). Graph ECUs answer "
                    "edges, hooked attempts and the ECUReset with refused replies of four kinds (`7f 10 80` / `7f 10 23`, `50`, "
                    "`7f 22 31` / `62 f1 86 03`, `50 07 ..`), switched or not; stateful ECUs garble replies by script (instead of "
-                   "handling / after handling the request, hook requests included)."),
+                   "handling / after handling the request, hook requests included). Positive session-change replies carry a "
+                   "sessionParameterRecord of 0 / 2 / 4 / 5 / 6 bytes (per ECU / per session; the model has no reply content, so any "
+                   "dependence of the scan on it is a disagreement); session changes announced with ResponsePending complete 0.3 .. 19.1 s "
+                   "(virtual time) later with the default client timeout and max_retry 0..3 (Model: withSlowPending; "
+                   "scan_slow_pending_transparent: below the 20 s of the pending loop the scan is the scan of the ECU that answers at "
+                   "once; slow_pending_lost_at_giveup: at 20 s the transmission is lost)."),
     "level_note": ("Trusted: Lean kernel (axioms propext, Quot.sound, Classical.choice), the harness and its graph ECU, the "
                    "virtual-time loop. The ECU class is a deterministic session graph (answers depend on the current "
                    "session and on whether the session hook preceded the request); responsePending handling belongs to C04; OEM "
